@@ -168,6 +168,12 @@ pub fn judge(
         ctx.landmark("resume_lc");
         nontrivial = true;
     }
+    if listed.iter().any(|l| l.is_resume && l.origin.and_then(|o| res.table.get(&o)).map(|o| o.is_resume).unwrap_or(false)) {
+        ctx.landmark("resume_of_resume");
+    }
+    if listed.iter().any(|l| l.is_resume && l.origin.and_then(|o| res.table.get(&o)).map(|o| l.start < o.start).unwrap_or(false)) {
+        ctx.landmark("resume_start_before_origin_start");
+    }
     if res
         .delivered
         .iter()
@@ -355,7 +361,7 @@ impl Prop for LcProp {
             ],
             budget_s: (40, 1500),
             workers: 0,
-            required_landmarks: vec!["ids_consumed_not_listed(merge)", "multi_lc_one_ecu", "two_ecus", "delivered_before_final_state"],
+            required_landmarks: vec!["ids_consumed_not_listed(merge)", "multi_lc_one_ecu", "two_ecus", "delivered_before_final_state", "resume_lc", "resume_of_resume", "resume_start_before_origin_start"],
         }
     }
 
@@ -386,6 +392,30 @@ impl Prop for LcProp {
                 if !done {
                     return;
                 }
+            }
+        }
+        // (1b) resume chains: full depth over the suspend/resume alphabet (chains of resumed lifecycles whose
+        // start estimates drift below their origins)
+        let ra = resume_alphabet();
+        let rd = ctx.tier.pick(6, 8);
+        for d in 2..=rd {
+            ctx.begin_family("resume_chains", &format!("depth={d} sigma={} (suspend/resume + start drift) uptime0=20000ms", ra.len()));
+            let mut syms = vec![ra[0]; d];
+            let done = enumr::sequences(d, ra.len(), |ix| {
+                if ctx.mine() {
+                    for (i, x) in ix.iter().enumerate() {
+                        syms[i] = ra[*x];
+                    }
+                    run_case(ctx, which, "resume_chains", 20_000, &syms, None);
+                    if ctx.sum.evaluations % 4096 == 0 && ctx.out_of_time() {
+                        return false;
+                    }
+                }
+                true
+            });
+            ctx.end_family(done);
+            if !done {
+                return;
             }
         }
         // (3) two-phase (pre-populated table)
